@@ -2205,6 +2205,7 @@ class Node(_protocols.NodeProtocol, _display.PrettyPrintable):
         # 1. If outputs is specified (can be empty []), use the outputs
         if outputs is not None:
             # Check all output values are valid first
+            seen_outputs: set[int] = set()
             for output in outputs:
                 if output is None:
                     raise ValueError(f"Output value cannot be None. All outputs: {outputs}")
@@ -2213,6 +2214,12 @@ class Node(_protocols.NodeProtocol, _display.PrettyPrintable):
                         f"Supplied output value cannot have a producer when used for initializing a Node. "
                         f"Output: {output}. All outputs: {outputs}"
                     )
+                if id(output) in seen_outputs:
+                    raise ValueError(
+                        f"Supplied output value appears more than once. "
+                        f"Output: {output}. All outputs: {outputs}"
+                    )
+                seen_outputs.add(id(output))
             result = []
             for i, output in enumerate(outputs):
                 output._producer = self  # pylint: disable=protected-access
